@@ -46,6 +46,10 @@ type Scenario struct {
 	// Count lets the scenario add counters from each terminal state
 	Count func(o *obs.Obs, counters, maxima map[string]int)
 
+	// OnHorizon is the oracle for an execution that ran into the step horizon without being a livelock of one
+	// thread (timed scenarios in which something keeps happening tick after tick); nil = inconclusive
+	OnHorizon func(o *obs.Obs) string
+
 	proj map[string]bool // projected outcomes of the complete terminal states (see ProjFile)
 }
 
@@ -102,6 +106,9 @@ func (s *Scenario) explorer(deadline time.Time, counters, maxima map[string]int)
 			if x.HitHorizon && !s.Live {
 				if x.Livelock != "" {
 					return fmt.Sprintf("LIVELOCK|the execution never ends: the goroutine created at %s has been running alone for more than 1000 steps with no other goroutine able to run and no timer pending, so nothing can ever change what it sees (channels closed so far: %v)", x.Livelock, x.Final)
+				}
+				if s.OnHorizon != nil {
+					return s.OnHorizon(o)
 				}
 				return ""
 			}
